@@ -116,6 +116,9 @@ func (s *Session) report(id string, cfg *CheckConfig, dev bool, t0 time.Time, lo
 					st = "FAIL"
 				}
 				fmt.Printf("%s %-8s %-7s %5dms  %s\n", st, o.Result.Status, o.Result.Backend, o.Result.Ms, o.Name)
+				if st == "FAIL" && o.Pos.IsValid() {
+					fmt.Printf("       at %s\n", o.Pos)
+				}
 				if st == "FAIL" && o.Script == "" {
 					fmt.Printf("       %s\n", trunc(o.Result.Model, 300))
 				}
